@@ -19,7 +19,7 @@ import (
 func init() {
 	Register(&Prop{
 		ID: "C07", NoShrink: true,
-		Rule: "srv: requests with Content-Length / chunked / fixed-length multipart (pre-parsed, not pre-parsed, with Content-Encoding) bodies of sizes around MaxRequestBodySize L (L-1, L, L+1, 2L, chunk splits) on a real connection; srvhr: the limit raised or lowered for one request through HeaderReceived, followed by a request without override on the same connection; cli: Response.ReadLimitBody with fixed / chunked / identity bodies around L, on fresh Response objects and on objects whose body buffer was grown by an earlier larger response; " +
+		Rule: "srv: requests with Content-Length / chunked / fixed-length multipart (pre-parsed, not pre-parsed, with Content-Encoding) bodies, with and without Expect: 100-continue, of sizes around MaxRequestBodySize L (L-1, L, L+1, 2L, chunk splits) on a real connection; srvhr: the limit raised or lowered for one request through HeaderReceived, followed by a request without override on the same connection; cli: Response.ReadLimitBody with fixed / chunked / identity bodies around L, on fresh Response objects and on objects whose body buffer was grown by an earlier larger response; " +
 			"gz: Body*WithLimit on gzip bodies whose inflated size is around L (incl. bombs); mp: MultipartFormWithLimit; head: request heads around ReadBufferSize; " +
 			"non-trivial = body size within [L-2, 2L]; distinct = distinct input",
 		Parallel: true,
@@ -27,6 +27,12 @@ func init() {
 			num := func(i int) int { n, _ := strconv.Atoi(string(a[i])); return n }
 			switch kind {
 			case "srv":
+				// a trailing "x" on the framing: the request carries Expect: 100-continue (accepted by the server itself)
+				expectHdr := ""
+				if m := string(a[2]); strings.HasSuffix(m, "x") && m != "mpx" {
+					expectHdr = "Expect: 100-continue\r\n"
+					a = append([][]byte{a[0], a[1], []byte(strings.TrimSuffix(m, "x"))}, a[3:]...)
+				}
 				L, size, chunked := num(0), num(1), string(a[2]) == "ch"
 				// "mp" / "mpnp": a fixed-length multipart/form-data body of exactly `size` bytes (pre-parsed by the server
 				// unless DisablePreParseMultipartForm); "mpgz": the same with a Content-Encoding (never pre-parsed)
@@ -52,7 +58,7 @@ func init() {
 				var stream bytes.Buffer
 				var sizes [][]byte
 				if chunked {
-					stream.WriteString("POST /big HTTP/1.1\r\nHost: h\r\nTransfer-Encoding: chunked\r\n\r\n")
+					stream.WriteString("POST /big HTTP/1.1\r\nHost: h\r\n" + expectHdr + "Transfer-Encoding: chunked\r\n\r\n")
 					rest := body
 					step := num(3)
 					for len(rest) > 0 {
@@ -63,7 +69,7 @@ func init() {
 					}
 					stream.WriteString("0\r\n\r\n")
 				} else {
-					fmt.Fprintf(&stream, "POST /big HTTP/1.1\r\nHost: h\r\n%sContent-Length: %d\r\n\r\n%s", ctype, size, body)
+					fmt.Fprintf(&stream, "POST /big HTTP/1.1\r\nHost: h\r\n%s%sContent-Length: %d\r\n\r\n%s", expectHdr, ctype, size, body)
 				}
 				stream.WriteString("GET /sentinel HTTP/1.1\r\nHost: h\r\n\r\n")
 				res := runConn(connCfg{MaxBody: L, NoPreParse: string(a[2]) == "mpnp"}, [][]byte{stream.Bytes()})
@@ -88,7 +94,7 @@ func init() {
 				}
 				return &Case{Lines: []string{line}, Impl: impl, Nontrivial: size >= L-2 && size <= 2*L, Tags: []string{"srv", "srv-" + strings.Fields(impl)[0], "srv-framing-" + string(a[2])},
 					Judge: func(r []string) Verdict {
-						desc := fmt.Sprintf("MaxRequestBodySize=%d body=%d framing=%s chunked=%v: dispatched=%v handlerBody=%d responses=%v closed=%v", L, size, a[2], chunked, dispatched, bodyLen, codes, res.Trace.Closed)
+						desc := fmt.Sprintf("MaxRequestBodySize=%d body=%d framing=%s expect=%v chunked=%v: dispatched=%v handlerBody=%d responses=%v closed=%v", L, size, a[2], expectHdr != "", chunked, dispatched, bodyLen, codes, res.Trace.Closed)
 						if size > L {
 							if dispatched {
 								return Verdict{VSpec, "oversized-body-dispatched", desc}
@@ -110,7 +116,11 @@ func init() {
 				// a second request without override follows on the same connection: it is under the server's limit again
 				L, R, s1, s2 := num(0), num(1), num(2), num(3)
 				var stream bytes.Buffer
-				fmt.Fprintf(&stream, "POST /first HTTP/1.1\r\nHost: h\r\nX-Req-Conf: mb=%d\r\nContent-Length: %d\r\n\r\n%s", R, s1, bytes.Repeat([]byte("a"), s1))
+				exp1 := ""
+				if len(a) > 4 && string(a[4]) == "x" {
+					exp1 = "Expect: 100-continue\r\n" // the per-request limit must also govern a body sent after 100 Continue
+				}
+				fmt.Fprintf(&stream, "POST /first HTTP/1.1\r\nHost: h\r\n%sX-Req-Conf: mb=%d\r\nContent-Length: %d\r\n\r\n%s", exp1, R, s1, bytes.Repeat([]byte("a"), s1))
 				fmt.Fprintf(&stream, "POST /second HTTP/1.1\r\nHost: h\r\nContent-Length: %d\r\n\r\n%s", s2, bytes.Repeat([]byte("b"), s2))
 				stream.WriteString("GET /sentinel HTTP/1.1\r\nHost: h\r\n\r\n")
 				res := runConn(connCfg{MaxBody: L, HeaderRecv: true}, [][]byte{stream.Bytes()})
@@ -297,7 +307,7 @@ func init() {
 				step := 1 + r.Intn(max(1, L))
 				switch r.Intn(6) {
 				case 0, 1:
-					emit("srv", N(L), N(size), B(r.Pick([]string{"cl", "ch", "cl", "ch", "mp", "mpnp", "mpgz"})), N(step))
+					emit("srv", N(L), N(size), B(r.Pick([]string{"cl", "ch", "cl", "ch", "mp", "mpnp", "mpgz", "clx", "chx", "clx"})), N(step))
 				case 2, 3:
 					prime := 0
 					if r.Chance(40) {
@@ -316,7 +326,7 @@ func init() {
 			for i := 0; i < n/10; i++ {
 				L := []int{10, 100, 1000, 4096}[r.Intn(4)]
 				R := []int{L / 2, 2 * L, 10 * L, L + 1}[r.Intn(4)]
-				emit("srvhr", N(L), N(R), N([]int{0, L / 2, L, L + 1, R, R + 1}[r.Intn(6)]), N([]int{0, L - 1, L, L + 1, R, 2 * L}[r.Intn(6)]))
+				emit("srvhr", N(L), N(R), N([]int{0, L / 2, L, L + 1, R, R + 1}[r.Intn(6)]), N([]int{0, L - 1, L, L + 1, R, 2 * L}[r.Intn(6)]), B(r.Pick([]string{"", "x"})))
 			}
 			for i := 0; i < n/10; i++ {
 				buf := []int{512, 1024, 2048, 4096}[r.Intn(4)]
